@@ -8,7 +8,7 @@ from .. import env, core, par
 PID = "C18"
 LEVEL = "exploration"
 RULE = ("Hypothesis-generated sequences of 1..30 operations on one Module or one Bundle: setattr(name, value), add(value), "
-        "add(value, name=), re-adding an attribute under its own name, assigning an already-held object under a second name (which moves it), assigning a held object to another module too and handing it back by re-adding it, get(name), attribute read, and negative operations (reserved "
+        "add(value, name=), re-adding an attribute under its own name, assigning an already-held object under a second name (which moves it), assigning a held object to another module too and handing it back by re-adding it, switching a held signal's visibility and re-assigning it, get(name), attribute read, and negative operations (reserved "
         "names, non-HDL values, delattr, sub-classing, add with both / neither name, additions after elaboration), names drawn from "
         "{a,b,c,d,e} (add() also: _a, _b), values of every attribute kind (signal, signal with a direction but no port visibility, each port direction, "
         "instance, array, instance bundle - of port-less cells - and bundle instance; for Bundles: signal, bundle instance). After "
@@ -24,7 +24,7 @@ ASSUME = ["assigning an already-held object under a second name moves it there (
 NAMES = ["a", "b", "c", "d", "e"]
 MOD_KINDS = ["signal", "signal_dir", "input", "output", "inout", "port", "instance", "array", "instbundle", "bundle", "bundle_port"]
 BUN_KINDS = ["signal", "input", "output", "bsub"]
-VIEW_OF = {"signal": "signals", "signal_dir": "signals", "input": "ports", "output": "ports", "inout": "ports", "port": "ports",
+VIEW_OF = {"vis_port": "ports", "vis_signal": "signals", "signal": "signals", "signal_dir": "signals", "input": "ports", "output": "ports", "inout": "ports", "port": "ports",
            "instance": "instances", "array": "instarrays", "instbundle": "instbundles", "bundle": "bundles", "bundle_port": "bundles"}
 BVIEW_OF = {"signal": "signals", "input": "signals", "output": "signals", "bsub": "bundles"}
 
@@ -106,6 +106,9 @@ def invariant(h, obj, modelmap, is_module, step, out, lent=()):
                 out.append(("getattr_other_object", "after step %d: attribute %r is not the assigned object" % (step, k)))
         except Exception as e:
             out.append(("getattr_raises", "after step %d: attribute %r raised %r" % (step, k, e)))
+        if not is_module:
+            if k not in lent and getattr(o, "_parent_bundle", None) is not obj:
+                out.append(("parent_not_set", "after step %d: %r does not report the bundle as its parent" % (step, k)))
         if is_module:
             if k not in lent and getattr(o, "_parent_module", None) is not obj:
                 out.append(("parent_not_set", "after step %d: %r does not report the module as its parent" % (step, k)))
@@ -122,8 +125,10 @@ def run_case(case):
     is_module = case["target"] == "module"
     obj = h.Module(name="Edit") if is_module else h.Bundle(name="EditB")
     modelmap = {}
-    other = h.Module(name="Other") if is_module else None
+    other = h.Module(name="Other") if is_module else h.Bundle(name="OtherB")
     lent = set()
+    lent_objs = {}  # id -> (object, the name it has in the other container)
+    pattr = "_parent_module" if is_module else "_parent_bundle"
     out, notes = [], []
     reused_other_kind = False
     for step, op in enumerate(case["ops"]):
@@ -155,20 +160,47 @@ def run_case(case):
                         reused_other_kind = True
                     setattr(obj, dst, modelmap[src][1])  # an attribute has one name: the object moves from src to dst
                     modelmap[dst] = modelmap.pop(src)
+                    if id(modelmap[dst][1]) in lent:  # (assigning it here again also hands a lent object back)
+                        lent.discard(id(modelmap[dst][1]))
+                        lent_objs.pop(id(modelmap[dst][1]), None)
                     notes.append("moved_to_second_name")
+            elif t == "flipvis":
+                # a held signal's visibility is switched (internal <-> port) and it is re-assigned under its name, which re-files it
+                name = op[1]
+                if name in modelmap and is_module and VIEW_OF.get(modelmap[name][0]) in ("signals", "ports") and id(modelmap[name][1]) not in lent:
+                    from hdl21.signal import Visibility
+                    kind0, o = modelmap[name]
+                    o.vis = Visibility.INTERNAL if o.vis == Visibility.PORT else Visibility.PORT
+                    dst = op[2] if len(op) > 2 else name
+                    setattr(obj, dst, o)  # under its own name, or - moving it at the same time - under another
+                    newkind = ("vis_port" if o.vis == Visibility.PORT else "vis_signal")
+                    if dst != name:
+                        if dst in modelmap and modelmap[dst][0] != newkind:
+                            reused_other_kind = True
+                        modelmap.pop(name)
+                        notes.append("visibility_switched_and_moved")
+                    modelmap[dst] = (newkind, o)
+                    notes.append("visibility_switched")
             elif t == "lend":
                 # the object is also assigned to ANOTHER module (which now claims it) - and may be handed back by a later readd
                 name = op[1]
-                if name in modelmap and is_module:
-                    setattr(other, name, modelmap[name][1])
+                if name in modelmap:
+                    oname = name if len(op) < 3 else op[2]  # under the same name there, or under another one
+                    setattr(other, oname, modelmap[name][1])
                     lent.add(id(modelmap[name][1]))
-                    notes.append("lent_to_another_module")
+                    lent_objs[id(modelmap[name][1])] = (modelmap[name][1], oname)
+                    notes.append("lent_to_another_module" if is_module else "lent_to_another_bundle")
+                    if oname != name:
+                        # in the other container the object has another name, which it now reports: here it is held under a name it
+                        # no longer reports - handing it back (readd) restores that
+                        pass
             elif t == "readd":
                 name = op[1]
                 if name in modelmap:
                     setattr(obj, name, modelmap[name][1])
                     if id(modelmap[name][1]) in lent:
                         lent.discard(id(modelmap[name][1]))
+                        lent_objs.pop(id(modelmap[name][1]), None)
                         notes.append("handed_back")
             elif t == "get":
                 pass
@@ -204,9 +236,17 @@ def run_case(case):
             return out, notes, reused_other_kind
         n0 = len(out)
         invariant(h, obj, modelmap, is_module, step, out, lent={k2 for k2, v2 in modelmap.items() if id(v2[1]) in lent})
+        # what the other container was given and still holds reports THAT container as its parent, whatever happens here meanwhile
+        for oid, (o2, oname) in lent_objs.items():
+            if other.get(oname) is o2 and getattr(o2, pattr, None) is not other:
+                out.append(("lent_object_parent_lost", "after step %d: the object assigned to the other %s as %r reports parent %r" % (
+                    step, "module" if is_module else "bundle", oname, getattr(o2, pattr, None))))
         if len(out) > n0:
             return out, notes, reused_other_kind
     # final export and class-style equivalence
+    if any(v2[0] in ("vis_port", "vis_signal") for v2 in modelmap.values()):
+        notes.append("final_phase_skipped_visibility_switched")
+        return out, notes, reused_other_kind
     if any(id(v2[1]) in lent for v2 in modelmap.values()):
         notes.append("final_phase_skipped_object_lent")
         return out, notes, reused_other_kind
@@ -358,7 +398,7 @@ def shard(idx, n, tier):
         uname = st.sampled_from(NAMES + NAMES + ["_a", "_b"])  # add() may give a leading-underscore name, setattr cannot
         pos = st.one_of(st.tuples(st.just("setattr"), name, kind), st.tuples(st.just("setattr"), name, kind),
                         st.tuples(st.just("add"), uname, kind), st.tuples(st.just("add_name"), uname, kind),
-                        st.tuples(st.just("readd"), name), st.tuples(st.just("get"), name), st.tuples(st.just("alias"), name, name), st.tuples(st.just("lend"), name))
+                        st.tuples(st.just("readd"), name), st.tuples(st.just("get"), name), st.tuples(st.just("alias"), name, name), st.tuples(st.just("lend"), name), st.tuples(st.just("lend"), name, name), st.tuples(st.just("flipvis"), name), st.tuples(st.just("flipvis"), name, name))
         neg = st.one_of(st.tuples(st.just("neg"), st.just("reserved"), st.sampled_from(banned)),
                         st.tuples(st.just("neg"), st.just("nonhdl"), st.sampled_from(["int", "str", "module", "list", "none", "extmod", "call"])),
                         st.tuples(st.just("neg"), st.just("nonhdl_add")),
